@@ -126,7 +126,11 @@ func runC12(c *core.Ctx) {
 		set := map[string]bool{}
 		for _, fn := range moduleFuncs(c) {
 			if len(an.CallsTo(fn, false, id)) > 0 {
-				set[core.FuncName(an.TopFunc(fn))] = true
+				for _, n := range accountable(c, fn, func(n string) bool {
+					return n == "(*snapshot.Store).Open" || n == "(*store.Store).fsmSnapshot" || n == "store.RecoverNode"
+				}) {
+					set[n] = true
+				}
 			}
 		}
 		var out []string
